@@ -248,6 +248,15 @@ func c05Gen(tier string, seed int64) []core.Case {
 			p["sched"] = "slow-starters"
 			id := fmt.Sprintf("%s/slow-starters/%s", sc.proto, f.String())
 			cs = append(cs, core.Case{ID: id, Class: id, Kind: "field", P: p, Cost: sc.cost})
+			if !sp.Bcast {
+				// only the copy for the last starter is altered: the other honest parties go on and their later messages
+				// reach a party whose Start has returned an error
+				f1 := faultSpec{fi.Type, fi.Field, ix, "+1", "low", true, "last"}
+				p1 := f1.P(sc.P())
+				p1["sched"] = "slow-starters"
+				id1 := fmt.Sprintf("%s/slow-starters/%s", sc.proto, f1.String())
+				cs = append(cs, core.Case{ID: id1, Class: id1, Kind: "field", P: p1, Cost: sc.cost})
+			}
 			k++
 		}
 	}
